@@ -181,6 +181,11 @@ Bcast(t, rec) ==
                  \* OnlyValidFinal
                  /\ G7(rec.valid /\ rec.final) /\ G6(rec.valid /\ rec.final)
                  \* FeeMonotone: a re-issued claim of the same outpoints never pays a lower feerate
+                 /\ LET Mono == \A e \in DOMAIN txs :
+                        (txs[e].by = rec.by /\ ~txs[e].sweep /\ ChanIns(e) # {}
+                         /\ ChanIns(e) = {rec.ins[k] : k \in {j \in 1..Len(rec.ins) : ~rec.wal[j]}})
+                          => rec.feerate + FeeTol(rec.feerate) >= txs[e].feerate
+                    IN G6(Mono) /\ G7(Mono)
                  /\ G7(\A e \in DOMAIN txs :
                         (txs[e].by = rec.by /\ ~txs[e].sweep /\ ChanIns(e) # {}
                          /\ ChanIns(e) = {rec.ins[k] : k \in {j \in 1..Len(rec.ins) : ~rec.wal[j]}})
